@@ -31,6 +31,11 @@ theorem naming_module_name : @Generated.Funcs.naming_module_name = @Pinned.Funcs
 theorem new_naming_versioned_module_name : @Generated.Funcs.new_naming_versioned_module_name = @Pinned.Funcs.new_naming_versioned_module_name := rfl
 theorem old_naming_versioned_module_name : @Generated.Funcs.old_naming_versioned_module_name = @Pinned.Funcs.old_naming_versioned_module_name := rfl
 theorem metadata_doc : @Generated.Funcs.metadata_doc = @Pinned.Funcs.metadata_doc := rfl
+theorem import_str : @Generated.Funcs.import_str = @Pinned.Funcs.import_str := rfl
+theorem service_shortname : @Generated.Funcs.service_shortname = @Pinned.Funcs.service_shortname := rfl
+theorem naming_long_name : @Generated.Funcs.naming_long_name = @Pinned.Funcs.naming_long_name := rfl
+theorem naming_module_namespace : @Generated.Funcs.naming_module_namespace = @Pinned.Funcs.naming_module_namespace := rfl
+theorem naming_warehouse_package_name : @Generated.Funcs.naming_warehouse_package_name = @Pinned.Funcs.naming_warehouse_package_name := rfl
 theorem address_str : @Generated.Funcs.address_str = @Pinned.Funcs.address_str := rfl
 theorem address_module_alias : @Generated.Funcs.address_module_alias = @Pinned.Funcs.address_module_alias := rfl
 theorem address_module_alias_ok : @Generated.Funcs.address_module_alias_ok = @Pinned.Funcs.address_module_alias_ok := rfl
